@@ -1,22 +1,73 @@
 import SoundeventModel.Ops.Common
 import SoundeventModel.Intervals
+import SoundeventModel.Affinity
 namespace SE.Ops.C12
 open Lean SE SE.Intervals
 
-def handle (op : String) (a : Json) : Except String Json := do
-  match op with
-  | "intervals_overlap" =>
+/-- outer `none` (a geometry without vertices) is a protocol error, inner `none` a `ValueError` -/
+def geoJ : Option (Option Bool) → Except String Json
+  | some r => .ok (optRaiseJ boolJ r)
+  | none => .error "geometry without points"
+
+/-- the implementation's observed outcome: `{"val": bool}` | `{"raise": …}` -/
+def getOut (a : Json) : Except String (Option Bool) := do
+  let o ← fld a "out"
+  match o.getObjVal? "val" with
+  | .ok v => return some (← v.getBool?)
+  | .error _ => return none
+
+/-- the two intervals of a request: given directly (`i1`, `i2`) or as the extents of two
+    geometries along `axis` (`"time"` | `"freq"`) -/
+def getIntervals (a : Json) : Except String (Rat × Rat × Rat × Rat) := do
+  match fldOpt a "g1" with
+  | none =>
     let (s1, e1) ← getPair (← fld a "i1")
     let (s2, e2) ← getPair (← fld a "i2")
-    return optRaiseJ boolJ (intervalsOverlap s1 e1 s2 e2 (← fldOptRat a "abs") (← fldOptRat a "rel"))
-  | "temporal" | "frequency" =>
-    let b1 ← geomBounds (← getGeom (← fld a "g1"))
+    return (s1, e1, s2, e2)
+  | some j1 =>
+    let b1 ← geomBounds (← getGeom j1)
     let b2 ← geomBounds (← getGeom (← fld a "g2"))
-    let f := if op == "temporal" then temporalOverlap else frequencyOverlap
-    return optRaiseJ boolJ (f b1 b2 (← fldOptRat a "abs") (← fldOptRat a "rel"))
-  | "is_in_clip" =>
+    if (← fldStr a "axis") == "time" then return (b1.st, b1.en, b2.st, b2.en)
+    else return (b1.lo, b1.hi, b2.lo, b2.hi)
+
+def handle (op : String) (a : Json) : Except String Json := do
+  -- binary64 variants: the same model function in the rounding arithmetic `rnd64`
+  let rnd : Rat → Rat := if op.endsWith "64" then SE.Affinity.rnd64 else id
+  match op with
+  | "intervals_overlap" | "intervals_overlap64" =>
+    let (s1, e1) ← getPair (← fld a "i1")
+    let (s2, e2) ← getPair (← fld a "i2")
+    let abs ← fldOptRat a "abs"
+    let rel ← fldOptRat a "rel"
+    if op == "intervals_overlap" then return optRaiseJ boolJ (intervalsOverlap s1 e1 s2 e2 abs rel)
+    return optRaiseJ boolJ (intervalsOverlapR rnd s1 e1 s2 e2 abs rel)
+  | "temporal" | "frequency" | "temporal64" | "frequency64" =>
+    let g1 ← getGeom (← fld a "g1")
+    let g2 ← getGeom (← fld a "g2")
+    let abs ← fldOptRat a "abs"
+    let rel ← fldOptRat a "rel"
+    match op with
+    | "temporal" => geoJ (haveTemporalOverlap g1 g2 abs rel)
+    | "frequency" => geoJ (haveFrequencyOverlap g1 g2 abs rel)
+    | "temporal64" => geoJ (haveTemporalOverlapR rnd g1 g2 abs rel)
+    | _ => geoJ (haveFrequencyOverlapR rnd g1 g2 abs rel)
+  | "is_in_clip" | "is_in_clip64" =>
+    let g ← getGeom (← fld a "g")
+    let m := (← fldOptRat a "min").getD defaultMinimumOverlap
+    if op == "is_in_clip" then geoJ (isInClipGeom g (← fldRat a "start") (← fldRat a "end") m)
+    else geoJ (isInClipGeomR rnd g (← fldRat a "start") (← fldRat a "end") m)
+  -- the property's demand on a result computed in floating point (see `C12_float_band`)
+  | "float_ok" =>
+    let (s1, e1, s2, e2) ← getIntervals a
+    return boolJ (floatOk (← fldRat a "u") s1 e1 s2 e2 (← fldOptRat a "abs") (← fldOptRat a "rel") (← getOut a))
+  | "clip_float_ok" =>
     let b ← geomBounds (← getGeom (← fld a "g"))
-    return optRaiseJ boolJ (isInClip b (← fldRat a "start") (← fldRat a "end") (← fldRat a "min"))
+    let m := (← fldOptRat a "min").getD defaultMinimumOverlap
+    return boolJ (clipFloatOk (← fldRat a "u") b (← fldRat a "start") (← fldRat a "end") m (← getOut a))
+  | "bounds" =>
+    return boundsJ (← geomBounds (← getGeom (← fld a "g")))
+  | "rnd64" =>
+    return valJ (ratJ (SE.Affinity.rnd64 (← fldRat a "x")))
   | _ => .error s!"C12: unknown op {op}"
 
 end SE.Ops.C12
